@@ -92,9 +92,10 @@ type CaseSpec struct {
 	// StartTogether: all sessions are handed to the node before the first step (default); the
 	// racy C11 cases additionally release their steps without barriers.
 	SettleMs int `json:"settle_ms,omitempty"` // extra quiet time before observing (racy cases)
-	// SockGrace: wait up to 150 ms for the node to close a real-transport session before observing
+	// SockGrace: wait (150 ms, up to 1.5 s on a loaded machine) for the node to close a real-transport session before observing
 	// its fate (admission scenarios over sockets)
-	SockGrace bool `json:"sock_grace,omitempty"`
+	SockGrace  bool `json:"sock_grace,omitempty"`
+	SockOpenOK bool `json:"sock_open_ok,omitempty"` // the generator expects the socket session to stay open
 	// WaitOpenAtMost (racy cases; -1/absent = off): before settling, wait up to 3 s until at most
 	// this many scripted sessions are still open (the number the generator knows must remain).
 	WaitOpenAtMost *int `json:"wait_open_at_most,omitempty"`
@@ -516,7 +517,10 @@ func runCase(spec *CaseSpec) (obs CaseObs) {
 			continue
 		}
 		// what the node wrote to a real transport arrives through the kernel: a short grace
-		for k := 0; k < 30 && spec.SockGrace && !p.Obs().Closed; k++ {
+		for k := 0; k < 300 && spec.SockGrace && !p.Obs().Closed; k++ {
+			if k >= 30 && p.Obs().NSent > 0 && spec.SockOpenOK {
+				break // the node's hello has arrived and the case expects the session to stay open
+			}
 			time.Sleep(5 * time.Millisecond)
 		}
 		obs.Sess[i] = p.Obs()
@@ -620,8 +624,8 @@ func observe(n *netceptor.Netceptor, spec *CaseSpec, sess []*ScriptSess, obs Cas
 	}
 	st := n.Status()
 	// the routing table is recomputed by its own goroutine 100 ms after a request: give it up to
-	// a second to stop naming next hops that are no longer connected before it is reported
-	for i := 0; i < 100 && !obs.Done; i++ {
+	// three seconds to stop naming next hops that are no longer connected before it is reported
+	for i := 0; i < 300 && !obs.Done; i++ {
 		stale := false
 		live := map[string]bool{}
 		for _, c := range st.Connections {
@@ -871,11 +875,18 @@ func RunCases(dir string, specs []CaseSpec, procs, conc int) map[int]*CaseObs {
 // TimingSuspect: the observation failed an oracle that depends on wall-clock thresholds (a
 // barrier or probe timed out, the well-behaved peer's ping was late).  On a loaded machine such
 // a failure can be the scheduler's; a real wedge reproduces when the case runs alone.
+// ExtraSuspect, when set by a harness, marks further observations for a confirmation run (cases
+// whose expected fate rests on data crossing real sockets within fixed waits).
+var ExtraSuspect func(id int, o *CaseObs) bool
+
 func TimingSuspect(o *CaseObs) bool {
+	if o != nil && !o.Crashed && ExtraSuspect != nil && ExtraSuspect(o.ID, o) {
+		return true
+	}
 	if o == nil || o.Crashed {
 		return false
 	}
-	return o.Wedged != "" || strings.Contains(o.Err, "not consumed") || (!o.Done && o.Err == "" && (!o.GoodPing || !o.NewPeer))
+	return o.Wedged != "" || o.Err != "" || (!o.Done && (!o.GoodPing || !o.NewPeer))
 }
 
 // RunCasesConfirmed runs all cases concurrently, then re-runs alone (one child, one case at a
